@@ -492,10 +492,56 @@ class _Chain(ToolBase):
             # the last source is the lazy outer iterable; its items are the member objects (filled in per world)
             srcs.append(g.src([]))
             srcs[-1].name += "outer"
-        return Spec("chain", srcs, [], {"form": form, "alias": g.alias(srcs) if form == 0 else None})
+        p = {"form": form, "alias": g.alias(srcs) if form == 0 else None}
+        if form == 0 and n >= 2 and not p["alias"] and g.cfg.odd_sources and g.ch.chance(1, 5):
+            # a chain inside a chain: the inner one over the first m sources is advanced k items by its owner and then
+            # handed to an outer chain (once, or - the same object - twice) together with the remaining sources
+            p["nested"] = (g.ch.between(1, n), g.ch.draw(4), g.ch.chance(1, 4))
+        return Spec("chain", srcs, [], p)
 
     def a(self, L, spec, S, F):
         form = spec.p["form"]
+        if form == 0 and spec.p.get("nested"):
+            m, k, twice = spec.p["nested"]
+            rest = list(S[m:])
+
+            class NestedChain:
+                """The owner of both chains: advances the inner one k items, then hands it to the outer one"""
+
+                def __init__(self):
+                    self.inner = L.chain(*S[:m])
+                    self.outer = None
+                    self.pre = k
+
+                def __aiter__(self):
+                    return self
+
+                def _outer(self):
+                    if self.outer is None:
+                        self.outer = L.chain(self.inner, self.inner, *rest) if twice else L.chain(self.inner, *rest)
+                    return self.outer
+
+                async def __anext__(self):
+                    while self.pre > 0:
+                        self.pre -= 1
+                        try:
+                            return await self.inner.__anext__()
+                        except StopAsyncIteration:
+                            self.pre = 0
+                        except BaseException:
+                            # the owner gives up: it releases what it still holds itself (the sources meant for the
+                            # outer chain have not been handed to the library yet)
+                            self.pre = 0
+                            await self.aclose()
+                            raise
+                    return await self._outer().__anext__()
+
+                async def aclose(self):
+                    # (a chain closes what it was given, advanced or not: the outer one is made for that if need be)
+                    await self._outer().aclose()
+                    await self.inner.aclose()
+
+            return NestedChain()
         if form == 0:
             return L.chain(*S)
         if form == 1:
@@ -503,6 +549,20 @@ class _Chain(ToolBase):
         return L.chain.from_iterable(S[-1])
 
     def r(self, spec, S, F):
+        if spec.p["form"] == 0 and spec.p.get("nested"):
+            m, k, twice = spec.p["nested"]
+
+            def driver():
+                inner = itertools.chain(*S[:m])
+                for _ in range(k):
+                    try:
+                        item = next(inner)
+                    except StopIteration:
+                        break
+                    yield item
+                yield from (itertools.chain(inner, inner, *S[m:]) if twice else itertools.chain(inner, *S[m:]))
+
+            return driver()
         if spec.p["form"] == 0:
             return itertools.chain(*S)
         if spec.p["form"] == 1:
@@ -698,7 +758,14 @@ class _Tee(ToolBase):
         # iterables are finished by an exception passing through them)
         src = g.src(items)
         carry_on = g.ch.chance(1, 2) and src.flavour in ("aiter_cls", "aiter_noclose", "aiter_full", "aiterable")
-        return Spec("tee", [src], [], {"n": n, "order": tuple(order), "carry_on": carry_on})
+        p = {"n": n, "order": tuple(order), "carry_on": carry_on}
+        if order and g.cfg.odd_sources and g.ch.chance(1, 5):
+            # at one point of the history a child (lagging or not) is split again: tee(child, 2) - its two halves take
+            # its place and a new last place; entries naming that new place do nothing before the split
+            p["retee"] = (g.ch.draw(len(order)), g.ch.draw(n))
+            p["carry_on"] = False  # (the halves' source is a tee child - a generator, finished by an error passing through)
+            p["order"] = tuple(c if (c < 0 or not g.ch.chance(1, 4)) else n for c in order)
+        return Spec("tee", [src], [], p)
 
     def a(self, L, spec, S, F):
         handle = L.tee(S[0], spec.p["n"])
@@ -706,10 +773,21 @@ class _Tee(ToolBase):
         order = spec.p["order"]
         stop = ("stop",)
 
+        retee = spec.p.get("retee")
+        subs = []
+
         async def driver():
             dead = set()
             try:
-                for c in order:
+                for pos, c in enumerate(order):
+                    if retee is not None and pos == retee[0]:
+                        sub = L.tee(children[retee[1]], 2)
+                        subs.append(sub)
+                        children[retee[1]] = sub[0]
+                        children.append(sub[1])
+                        yield (retee[1], ("split",))
+                    if c >= len(children) or -1 - c >= len(children):
+                        continue
                     if c < 0:
                         await children[-1 - c].aclose()
                         yield (-1 - c, ("closed",))
@@ -726,18 +804,31 @@ class _Tee(ToolBase):
                     else:
                         yield (c, item)
             finally:
+                for sub in subs:
+                    await sub.aclose()
                 await handle.aclose()
 
         return driver()
 
     def r(self, spec, S, F):
-        children = itertools.tee(S[0], spec.p["n"])
+        children = list(itertools.tee(S[0], spec.p["n"]))
         order = spec.p["order"]
         stop = ("stop",)
+        retee = spec.p.get("retee")
 
         def driver():
             closed = set()
-            for c in order:
+            for pos, c in enumerate(order):
+                if retee is not None and pos == retee[0]:
+                    k = retee[1]
+                    a2, b2 = itertools.tee(children[k], 2)
+                    children[k] = a2
+                    children.append(b2)
+                    if k in closed:
+                        closed.add(len(children) - 1)  # the halves of a closed child are at their end as well
+                    yield (k, ("split",))
+                if c >= len(children) or -1 - c >= len(children):
+                    continue
                 if c < 0:
                     closed.add(-1 - c)  # itertools children have no close: a closed child is one nobody advances
                     yield (-1 - c, ("closed",))
